@@ -4,20 +4,21 @@
 EXTENDS Bindings, PosMatcher
 
 VARIABLES matchers,      \* matcher id -> set of POS ids
-          posList        \* the dictionary's POS list (oracle)
-pvars == <<matchers, posList>>
+          posList,       \* the dictionary's POS list (oracle)
+          pretoks        \* pre-tokenizer id -> [mode, fields, proj, handler]
+pvars == <<matchers, posList, pretoks>>
 
-PInit == matchers = Fn0 /\ posList = <<>>
+PInit == matchers = Fn0 /\ posList = <<>> /\ pretoks = Fn0
 
 \* pos_matcher([patterns]): an error when some pattern matches nothing (nothing is created then)
 MatcherNew(mid, pats, res) ==
   /\ IF PatternsOK(posList, pats) THEN res = "ok" /\ matchers' = Put(matchers, mid, FromPatterns(posList, pats))
                                   ELSE res = "err" /\ UNCHANGED matchers
-  /\ UNCHANGED posList
+  /\ UNCHANGED <<posList, pretoks>>
 \* pos_matcher(lambda pos: pos[field] == value)
 MatcherFn(mid, field, value, res) ==
   /\ res = "ok" /\ matchers' = Put(matchers, mid, { id \in Ids(posList) : posList[id + 1][field + 1] = value })
-  /\ UNCHANGED posList
+  /\ UNCHANGED <<posList, pretoks>>
 MatcherOp(mid, kind, a, b, res) ==
   /\ a \in DOMAIN matchers /\ (kind # "inv" => b \in DOMAIN matchers)
   /\ res = "ok"
@@ -25,7 +26,31 @@ MatcherOp(mid, kind, a, b, res) ==
                                       [] kind = "and" -> Inter(matchers[a], matchers[b])
                                       [] kind = "sub" -> Diff(matchers[a], matchers[b])
                                       [] kind = "inv" -> Compl(posList, matchers[a]))
-  /\ UNCHANGED posList
+  /\ UNCHANGED <<posList, pretoks>>
+
+\* ---------------------------------------------------------------- HuggingFace pre-tokenizer (python/src/pretokenizer.rs)
+\* Dictionary.pre_tokenizer(mode, fields, handler, projection): without a handler only the projection's fields are loaded
+PreTokNew(pt, mode, fields, proj, handler) ==
+  /\ LET m == IF mode = None THEN 2 ELSE mode IN
+     pretoks' = Put(pretoks, pt, [mode |-> m, proj |-> proj, handler |-> handler,
+                                  fields |-> (IF handler THEN fields ELSE {}) \cup Required(proj) \cup ModeField(m)])
+  /\ UNCHANGED <<matchers, posList>>
+
+\* pretok(index, string): the tokens are the slices of the GIVEN string at the morphemes' code point ranges (= raw surfaces),
+\* the projected strings when a projection is configured, or whatever the handler makes of the morpheme list
+\* (the driver's handler returns begin, end and normalized form of every morpheme)
+PreTokCall(pt, text, res, val) ==
+  LET p == pretoks[pt]
+      r == libTok[<<text, p.mode, p.fields>>]
+  IN /\ pt \in DOMAIN pretoks /\ <<text, p.mode, p.fields>> \in DOMAIN libTok
+     /\ res = r.res
+     /\ r.res = "ok" =>
+          /\ Len(val) = Len(r.ms)
+          /\ \A i \in 1..Len(val) :
+                LET m == r.ms[i] IN
+                IF p.handler THEN val[i] = <<m.begin, m.end, m.norm>>
+                ELSE val[i] = (IF p.proj = "surface" THEN m.surface ELSE Proj(p.proj, m))
+     /\ UNCHANGED pvars
 
 \* what a matcher shows: its size, its POS tuples in id order, and its verdict on every morpheme of every valid list
 MatcherShows(om, mid) ==
